@@ -34,4 +34,8 @@ SPEC = dict(
                  'the canonical shape is the binary-counter forest (perfect by leaf count; merged from the right at close) as stated by the property anchors and tree_builder.h',
                  'the metadata payload re-derived by the reference (padding to even length, client id, optional machine id / sequence nr / request time) is the TLV payload the statement means'],
     deadline=dict(quick=600, thorough=2400),
+    # check.py's ASAN_OPTIONS plus a small quarantine: a case allocates < 100 KiB, and the default 256 MiB quarantine
+    # makes the resident set (and with it every fork() of the own-process cases) several times more expensive
+    env=dict(ASAN_OPTIONS='detect_leaks=0:abort_on_error=0:allocator_may_return_null=1:handle_abort=1:symbolize=1:'
+                          'detect_stack_use_after_return=0:malloc_context_size=12:quarantine_size_mb=16'),
 )
